@@ -44,7 +44,7 @@ Definition compute_range (si : Z) (start stop step : option Z) : Z :=
   | None, None => si
   | Some a, None =>
       match step with
-      | Some s => if (s <? 0) && (0 <=? a) then u64 (a + 1) else u64 (si - a)
+      | Some s => if (s <? 0) && (0 <=? a) then u64 (i32 (a + 1)) else u64 (si - a)   (* start + 1 is int arithmetic *)
       | None => u64 (si - a)
       end
   | None, Some b => if b <? 0 then u64 (si + b) else u64 (clip_stop si b)
@@ -318,7 +318,7 @@ Definition slice_core (n : Z) (start stop step : option Z) : bool :=
   end.
 
 (* boolean hypotheses of the theorems: C++ `int` bounds, extent below 2^24 (binary32 exactness) *)
-Definition intb (v : Z) : bool := (- 2 ^ 31 <? v) && (v <? 2 ^ 31).
+Definition intb (v : Z) : bool := (- 2 ^ 31 <? v) && (v <? 2 ^ 31 - 1).   (* INT_MIN / INT_MAX excluded: -v and v+1 overflow *)
 Definition ointb (o : option Z) : bool := match o with None => true | Some v => intb v end.
 Definition axis_dom (n : Z) (a b c : option Z) : bool :=
   (n <? 2 ^ 24) && ointb a && ointb b && ointb c && slice_core n a b c.
